@@ -82,17 +82,37 @@ class PolicyModel:
         self.deref = set()
         self.query_field = {}
         self.guard_quality = {}
-        for name, m in ((n.name, n) for n in self.cls.body if isinstance(n, ast.FunctionDef)):
+        from .inline import flat_methods
+        for name, m in sorted(flat_methods(self.cls)[0].items()):          # helpers introduced later (a rule-set accessor ...) are expanded in place
             if not name.startswith('is_attribute'):
                 continue
             guarded = False
             for n in walk_local(m):
                 if isinstance(n, ast.Compare) and isinstance(n.ops[0], (ast.NotIn, ast.In)) and '_attribute_rule_sets' in U(n.comparators[0]):
                     guarded = True
+            rsvars = set(a.targets[0].id for a in walk_local(m) if isinstance(a, ast.Assign) and isinstance(a.targets[0], ast.Name) and '_attribute_rule_sets' in U(a.value))
+            if not guarded and rsvars:
+                # the other spelling of the guard: the looked-up rule set is tested for None before every read of one of its fields
+                from .cfg import CFG
+                from .dataflow import node_of_expr
+                from .guards import dominating_edges, is_none_test
+                g_ = CFG(m)
+                reads = [x for x in walk_local(m) if isinstance(x, ast.Attribute) and isinstance(x.value, ast.Name) and x.value.id in rsvars and isinstance(x.ctx, ast.Load)]
+                def tested(x):
+                    nd = node_of_expr(g_, x)
+                    if nd is None:
+                        return False
+                    for tt, lab in dominating_edges(g_, nd):
+                        nt = is_none_test(tt.stmt)
+                        if nt and U(nt[1]) == x.value.id and ((nt[0] == 'isnot') == (lab == 'T')):
+                            return True
+                        if U(tt.stmt) == x.value.id and lab == 'T':
+                            return True
+                    return False
+                guarded = bool(reads) and all(tested(x) for x in reads)
             if not guarded:
                 self.deref.add(name)
             self.guard_quality[name] = self._guard_quality(m)
-            rsvars = set(a.targets[0].id for a in walk_local(m) if isinstance(a, ast.Assign) and isinstance(a.targets[0], ast.Name) and '_attribute_rule_sets' in U(a.value))
             flds = sorted(set(x.attr for x in walk_local(m) if isinstance(x, ast.Attribute) and ((isinstance(x.value, ast.Name) and x.value.id in rsvars)
                                                                                                 or (isinstance(x.value, (ast.Call, ast.Subscript)) and '_attribute_rule_sets' in U(x.value)))))
             self.query_field[name] = flds
